@@ -92,7 +92,7 @@ def bookkeeping(ctx, rep, R, prefix, only=None):
     m = ctx.m
     n = 0
     for fold in (helpersfold.fold_filter_cache, helpersfold.fold_nodeconsts, helpersfold.fold_extended_quantifier_targets,
-                 helpersfold.fold_world_index, helpersfold.fold_unserial, helpersfold.fold_counts):
+                 helpersfold.fold_world_index, helpersfold.fold_unserial, helpersfold.fold_counts, helpersfold.fold_serial_rule):
         if only and fold.__name__ not in only:
             continue
         res, cons = fold(m)
